@@ -34,6 +34,8 @@ fn eval_tcp_throughput_inv(rtt: f64, target_rate_bps: u32) -> f64 {
     let mut b = 1.0;
 
     loop {
+        #[cfg(feature = "verif")]
+        crate::verif::tick();
         let c = (b + a)/2.0;
 
         let rate = eval_tcp_throughput(rtt, c);
